@@ -264,16 +264,51 @@ def work_dispatch(job):
     return work(job)
 
 
+def case_line(p, d):
+    if p == "tcp" and d:
+        return "P parse:%s:len:%s cdump psize:tcp:%s" % (p, common.hx(d), common.hx(d[:8]))
+    return "P parse:%s:len:%s cdump" % (p, common.hx(d))
+
+
+def judge_framing(data, res):
+    """stream framing: the size coap_pdu_parse_size() derives from the header must
+    delimit exactly the bytes the reference says belong to the message"""
+    if res is None or "|" not in res:
+        return None
+    parts = res.split("|")
+    if len(parts) < 3:
+        return None
+    f = parts[2].split(" ")
+    if len(f) != 2 or f[1] == "short":
+        return None
+    try:
+        total = cw.tcp_frame_length(data[:8])
+    except cw.Reject:
+        return None
+    if total is None:
+        return None
+    hs, size = int(f[0]), int(f[1])
+    if hs + size != total:
+        return ("stream-frame-size-differs/tkl-%d" % (data[0] & 15),
+                "header %s: reference says the message occupies %d bytes, libcoap %d + %d"
+                % (data[:8].hex(), total, hs, size))
+    return None
+
+
 def work_cases(cases, exe):
-    lines = ["P parse:%s:len:%s cdump" % (p, common.hx(d)) for _, p, d in cases]
+    lines = [case_line(p, d) for _, p, d in cases]
     results, crashes = common.run_batch(exe, lines)
     cov = {}
     vios = []
     for (cls, proto, data), res in zip(cases, results):
-        c, v = judge(cls, proto, data, res)
+        c, v = judge(cls, proto, data, "|".join(res.split("|")[:2]) if res else res)
         cov[c] = cov.get(c, 0) + 1
         if v:
             vios.append((v[0], {"proto": proto, "bytes": data.hex(), "class": cls}, v[1]))
+        if proto == "tcp" and data:
+            v = judge_framing(data, res)
+            if v:
+                vios.append((v[0], {"proto": proto, "bytes": data.hex(), "class": cls}, v[1]))
     crash_out = []
     for cr in crashes:
         sig = common.sanitizer_signature(cr.stderr) or ("abort-rc%d" % cr.rc)
